@@ -5,7 +5,7 @@ import traceback
 
 from vlib import corpus
 from vlib import unitsnap as us
-from vlib.core import sighash
+from vlib.core import sighash, CaseTimeout
 from vlib.fgenlab import ProgGen
 from vlib.hostilegen import HostileGen, pick_flags
 
@@ -484,10 +484,14 @@ def replay_control(text, tpath, history, side):
     for e in mine[:-1]:
         try:
             apply_edit(obj, e)
+        except CaseTimeout:
+            raise
         except Exception:
             return True
     try:
         apply_edit(obj, mine[-1])
+    except CaseTimeout:
+        raise
     except Exception:
         return True
     return False
@@ -503,6 +507,8 @@ def run_case(idx, rng, tier, ctx):
     cnt = res['counters']
     try:
         sf = Sourcefile.from_source(text)
+    except CaseTimeout:
+        raise
     except Exception as e:
         res['sig'] = sighash(text)
         res['features'].append('fp-parse-failed')
@@ -530,6 +536,8 @@ def run_case(idx, rng, tier, ctx):
         try:
             keep.extend(x for _, x in us.scope_tree(orig))
             before = snapshot(orig)
+        except CaseTimeout:
+            raise
         except Exception:
             res['features'].append('snapshot-exception')
             cnt['snapshot_exceptions'] = cnt.get('snapshot_exceptions', 0) + 1
@@ -538,6 +546,8 @@ def run_case(idx, rng, tier, ctx):
             clone = orig.clone()
             cnt['clones'] = cnt.get('clones', 0) + 1
             keep.extend(x for _, x in us.scope_tree(clone))
+        except CaseTimeout:
+            raise
         except Exception as e:
             res['violations'].append({'key': f'clone:exception:{tkind}:{type(e).__name__}',
                                       'msg': f'clone() raised {type(e).__name__}: {str(e)[:200]}',
@@ -550,6 +560,8 @@ def run_case(idx, rng, tier, ctx):
             stale_prone = True
         try:
             s_o, s_c = check_clone(orig, clone, res, witness, tkind, pristine)
+        except CaseTimeout:
+            raise
         except Exception as e:
             res['violations'].append({'key': f'clone:observation-exception:{tkind}:{type(e).__name__}',
                                       'msg': f'observing the fresh clone raised {type(e).__name__}: {str(e)[:200]}',
@@ -572,6 +584,8 @@ def run_case(idx, rng, tier, ctx):
                 out = apply_edit(copies[side], ed)
                 desc, epath = out if out is not None else (None, '')
                 keep.extend(x for _, x in us.scope_tree(copies[side]))
+            except CaseTimeout:
+                raise
             except Exception as e:
                 history.append((side, ed))
                 cnt['edit_exceptions'] = cnt.get('edit_exceptions', 0) + 1
@@ -579,6 +593,8 @@ def run_case(idx, rng, tier, ctx):
                 # decide with a never-cloned control object whether the exception is caused by cloning
                 try:
                     also = replay_control(text, tpath, history, side) if rnd == 0 else True
+                except CaseTimeout:
+                    raise
                 except Exception:
                     also = True
                 if not also:
@@ -602,6 +618,8 @@ def run_case(idx, rng, tier, ctx):
             try:
                 now_other = snapshot(copies[other])
                 now_side = snapshot(copies[side])
+            except CaseTimeout:
+                raise
             except Exception as e:
                 res['features'].append('snapshot-exception')
                 cnt['snapshot_exceptions'] = cnt.get('snapshot_exceptions', 0) + 1
@@ -629,6 +647,8 @@ def run_case(idx, rng, tier, ctx):
             try:
                 foreign = us.own_map(us.scope_tree(copies[other]))
                 probs, n = us.scope_chain_problems(copies[side], foreign)
+            except CaseTimeout:
+                raise
             except Exception:
                 continue
             cnt['symbols_scope_checked'] = cnt.get('symbols_scope_checked', 0) + n
